@@ -288,11 +288,11 @@ template <size_t K> static void do_rmc(const Args& a, Out& o) {
 
 // rmx K p a v = (v a built-in int64_t scalar)  for each op: rawMGA outMGA valMGI
 //   ops: mul(r,A,v)  mul(r=A,v)  add(r,A,v)  sub(r,A,v)  addmul(r=A,A,v)  v - A  A * v
-template <size_t K> static void do_rmx(const Args& a, Out& o) {
+template <size_t K, typename SV = int64_t> static void do_rmx(const Args& a, Out& o) {
     typedef RecInt::ruint<K> E;
     set_modulus<K>(Zarg(a, 1));
     E ua = toR<K>(Zarg(a, 2));
-    int64_t v = (int64_t)a.SW(3);
+    SV v = (SV)(int64_t)a.SW(3);      // the scalar in its own built-in type: magnitudes are taken in that type by the library
     GA A(ua), r;
     GI a_(ua), s;
     auto emit = [&](const GA& x, const GI& y) { put<K>(o, x.Value); put<K>(o, RecInt::get_ruint(x)); put<K>(o, y.Value); };
@@ -483,6 +483,7 @@ template <size_t K> static bool dispatchK(const std::string& key, const Args& a,
     else if (key == "rme") do_rme<K>(a, o);
     else if (key == "rmc") do_rmc<K>(a, o);
     else if (key == "rmx") do_rmx<K>(a, o);
+    else if (key == "rmx32") do_rmx<K, int32_t>(a, o);
     else if (key == "rmxd") do_rmxd<K>(a, o);
     else if (key == "mrh") do_mrh<K>(a, o);
     else if (key == "rmr") do_rmr<K>(a, o);
@@ -845,10 +846,17 @@ struct Gen {
             size_t nc = thorough ? cs.size() : std::min<size_t>(cs.size(), 15);
             for (size_t i = 0; i < nc; ++i) if (thorough || i >= 9 || (i + p.get_ui()) % 3 == 0) line("rmc " + P + " " + HS(cs[i]));
             // built-in scalars mixed with rmint operands (both signs)
+            {   // the minimum of the 32-bit scalar type, as an `int` (its magnitude does not exist in that type), in every tier
+                const mpz_class& x = rs[rng.below(n)];
+                line("rmx32 " + P + " " + hx(x) + " " + HS(-2147483647LL - 1));
+                line("rmx32 " + P + " " + hx(x) + " " + HS(-2147483647LL));
+                line("rmx " + P + " " + hx(x) + " " + HS(-2147483647LL - 1));
+            }
             for (size_t i = 0; i < nc; ++i) {
                 if (!(thorough || i >= 9 || (i + p.get_ui()) % 4 == 1)) continue;
                 const mpz_class& x = rs[rng.below(n)];
                 line("rmx " + P + " " + hx(x) + " " + HS(cs[i]));
+                if (cs[i] >= -2147483647LL - 1 && cs[i] <= 2147483647LL) line("rmx32 " + P + " " + hx(x) + " " + HS(cs[i]));
                 mpz_class g, vv = mpz_class(HS(cs[i]).c_str(), 16);
                 mpz_gcd(g.get_mpz_t(), vv.get_mpz_t(), p.get_mpz_t());
                 if (g == 1) line("rmxd " + P + " " + hx(x) + " " + HS(cs[i]));
